@@ -393,7 +393,7 @@ func (e *FnEnc) havocAll(why string, args ...Val) {
 		old := e.heap(hv)
 		nw := e.havocHeap(hv)
 		for _, l := range e.locals {
-			if l.heap == name {
+			if l.heap == name && !l.esc.escapedAt(e.curBlock, e.curIdx) {
 				e.assume(sx("=", sx("select", nw, l.ref), sx("select", old, l.ref)))
 			}
 		}
@@ -772,6 +772,90 @@ func callNames(c *ssa.CallCommon) map[string]bool {
 	return names
 }
 
+// globalWrites: the package-level variables of the module that the function may write, transitively through static
+// calls to module functions and the function literals they contain: stores through the variable, updates of a map or
+// calls of a method on an object held in (or addressed through) the variable. Value: where.
+func (w *World) globalWrites(f *ssa.Function) map[string]string {
+	out := map[string]string{}
+	rootGlobal := func(v ssa.Value) *ssa.Global {
+		for depth := 0; depth < 16; depth++ {
+			switch a := v.(type) {
+			case *ssa.Global:
+				return a
+			case *ssa.FieldAddr:
+				v = a.X
+			case *ssa.IndexAddr:
+				v = a.X
+			case *ssa.UnOp:
+				v = a.X
+			case *ssa.Field:
+				v = a.X
+			default:
+				return nil
+			}
+		}
+		return nil
+	}
+	note := func(g *ssa.Global, in ssa.Instruction) {
+		if g == nil || g.Pkg == nil || !strings.HasPrefix(g.Pkg.Pkg.Path(), ModulePath) {
+			return
+		}
+		name := g.Name()
+		if _, ok := out[name]; !ok {
+			pos := ""
+			if in.Parent() != nil {
+				pos = in.Parent().Prog.Fset.Position(in.Pos()).String()
+			}
+			out[name] = pos
+		}
+	}
+	seen := map[*ssa.Function]bool{}
+	var walk func(g *ssa.Function)
+	walk = func(g *ssa.Function) {
+		if g == nil || seen[g] || g.Blocks == nil {
+			return
+		}
+		pk := g.Pkg
+		if pk == nil && g.Parent() != nil {
+			pk = g.Parent().Pkg
+		}
+		if pk == nil || !strings.HasPrefix(pk.Pkg.Path(), ModulePath) {
+			return
+		}
+		seen[g] = true
+		for _, b := range g.Blocks {
+			for _, in := range b.Instrs {
+				switch i := in.(type) {
+				case *ssa.Store:
+					note(rootGlobal(i.Addr), in)
+				case *ssa.MapUpdate:
+					note(rootGlobal(i.Map), in)
+				case ssa.CallInstruction:
+					cc := i.Common()
+					if bi, ok := cc.Value.(*ssa.Builtin); ok {
+						if bi.Name() == "delete" || bi.Name() == "clear" {
+							note(rootGlobal(cc.Args[0]), in)
+						}
+						continue
+					}
+					if cc.IsInvoke() {
+						note(rootGlobal(cc.Value), in)
+					} else if sf := cc.StaticCallee(); sf != nil && sf.Signature.Recv() != nil && len(cc.Args) > 0 {
+						note(rootGlobal(cc.Args[0]), in)
+					}
+					walk(cc.StaticCallee())
+				case *ssa.MakeClosure:
+					if lf, ok := i.Fn.(*ssa.Function); ok {
+						walk(lf)
+					}
+				}
+			}
+		}
+	}
+	walk(f)
+	return out
+}
+
 // ownedArgsCheck: an argument passed for an "owned" parameter must itself be reachable only through the value passed:
 // a local object that does not escape (other than into owned positions) or an owned parameter of the caller.
 func (e *FnEnc) ownedArgsCheck(c *ssa.CallCommon, f *ssa.Function, con *FuncContract, in ssa.Instruction) {
@@ -905,9 +989,23 @@ func (e *FnEnc) protectCheck(l *Loc, write bool, in ssa.Instruction) {
 		return
 	}
 	fname := st.Field(l.Path[0].Field).Name()
-	for _, p := range e.W.Contracts.Protects {
-		if p.Type != nt.Obj().Name() || p.Field != fname || nt.Obj().Pkg() == nil || nt.Obj().Pkg().Path() != p.Pkg {
+	for pi := range e.W.Contracts.Protects {
+		p := &e.W.Contracts.Protects[pi]
+		if p.Type != nt.Obj().Name() || !p.matchesField(fname) || nt.Obj().Pkg() == nil {
 			continue
+		}
+		if p.TypePkg == "" {
+			if nt.Obj().Pkg().Path() != p.Pkg {
+				continue
+			}
+		} else {
+			fp := e.fn.Pkg
+			if fp == nil && e.fn.Parent() != nil {
+				fp = e.fn.Parent().Pkg
+			}
+			if nt.Obj().Pkg().Name() != p.TypePkg || fp == nil || fp.Pkg.Path() != p.Pkg {
+				continue
+			}
 		}
 		cl := p.Read
 		kind := "read"
@@ -917,9 +1015,13 @@ func (e *FnEnc) protectCheck(l *Loc, write bool, in ssa.Instruction) {
 		if !clauseActive(*cl, e.prop) {
 			continue
 		}
+		if b, isLit := cl.Expr.(*EBool); isLit && b.V {
+			continue
+		}
 		env := e.specEnv(e.cur, e.initState, nil)
 		env.site = e.curBlock
-		e.obligeClause(env, *cl, fmt.Sprintf("protect.%s.%s.%s@%s", p.Type, p.Field, kind, e.posOf(in)), "protocol", e.curGuard, e.posOf(in))
+		env.vars["self"] = Val{T: l.Ref, Ty: types.NewPointer(l.RootTy)} // the object whose field is accessed
+		e.obligeClause(env, *cl, fmt.Sprintf("protect.%s.%s.%s@%s", p.Type, fname, kind, e.posOf(in)), "protocol", e.curGuard, e.posOf(in))
 	}
 }
 
